@@ -20,6 +20,15 @@ GHOST_SORTS = {
     "ghost.clock_now": IntS,
     # per message object: how many times Gateway.send handed its line to the transport successfully
     "ghost.wcnt": arr(Ref, IntS),
+    # stream transports (A-STREAM): bytes not yet consumed by reads / bytes handed to the writer / writer closed
+    "ghost.inb": BytesS,
+    "ghost.outb": BytesS,
+    "ghost.closed": BoolS,
+    # MQTT (A-AIO queue as a FIFO log; A-MQTT publish / subscribe logs; number of live background tasks)
+    "ghost.qlen": IntS, "ghost.qhead": IntS, "ghost.qat": arr(IntS, Ref),
+    "ghost.plen": IntS, "ghost.ptopic": arr(IntS, StrS), "ghost.ppayload": arr(IntS, StrS), "ghost.pqos": arr(IntS, IntS),
+    "ghost.slen": IntS, "ghost.stopic": arr(IntS, StrS), "ghost.sqos": arr(IntS, IntS),
+    "ghost.tasks": IntS,
 }
 
 
@@ -378,7 +387,67 @@ def sf_cross_ok(I, fr, c, k, t):
     return Sym(z3.And(sys_ok, no_set_req_on_255), "bool")
 
 
+def sf_inb(I, fr):
+    return Sym(gget(I, fr.heap, "ghost.inb"), "bytes")
+
+
+def sf_outb(I, fr):
+    return Sym(gget(I, fr.heap, "ghost.outb"), "bytes")
+
+
+def sf_first_line(I, fr, b):
+    from pyvc import models
+    return Sym(models.first_line(b.term), "bytes")
+
+
+def sf_after_line(I, fr, b):
+    from pyvc import models
+    return Sym(models.after_line(b.term), "bytes")
+
+
+def sf_has_line(I, fr, b):
+    from pyvc import models
+    return Sym(models.has_line(b.term), "bool")
+
+
+def sf_utf8_ok(I, fr, b):
+    return Sym(L.utf8_ok(b.term), "bool")
+
+
+def sf_utf8_dec(I, fr, b):
+    return Sym(L.utf8_dec(b.term), "str")
+
+
+def sf_utf8(I, fr, s):
+    return Sym(L.utf8(sterm(I, s)), "bytes")
+
+
+def sf_bcat(I, fr, a, b):
+    from pyvc import models
+    return Sym(models.bcat(a.term, b.term), "bytes")
+
+
+def sf_g(I, fr, name, *idx):
+    """ghost field by name, optionally indexed: g('ghost.ptopic', i)"""
+    t = gget(I, fr.heap, name)
+    for i in idx:
+        t = z3.Select(t, iterm(I, i))
+    srt = t.sort()
+    if srt == IntS:
+        return I.mk(t, "int")
+    if srt == StrS:
+        return I.mk(t, "str")
+    if srt == BoolS:
+        return I.mk(t, "bool")
+    if srt == Ref:
+        return Obj(t, TObj("ReceivedMessage"))
+    return Sym(t, "array")
+
+
 SPEC_GLOBALS = {
+    "g": sf_g,
+    "inb": sf_inb, "outb": sf_outb, "first_line": sf_first_line, "after_line": sf_after_line, "has_line": sf_has_line,
+    "utf8_ok": sf_utf8_ok, "utf8_dec": sf_utf8_dec, "utf8": sf_utf8, "bcat": sf_bcat,
     "rstrip": sf_rstrip, "nth": sf_nth, "rest": sf_rest, "nfields": sf_nfields, "cross_ok": sf_cross_ok,
     "loop_done": sf_loop_done,
     "wcnt": sf_wcnt, "wcnt_bumped": sf_wcnt_bumped, "k3n": sf_k3n,
